@@ -18,7 +18,7 @@ func init() {
 			"strategies, partitions, limiters, listeners, measurements, registries and the objects they own) and every field - or what a pointer/map/slice/list field " +
 			"refers to - that is written anywhere outside a constructor, every access in the module either goes through sync/atomic, or holds one common mutex of the " +
 			"object (exclusively for writes, at least shared for reads), or is made through an owner object that provably encapsulates the instance and holds the owner's " +
-			"mutex around every use. Guarded-by relations are inferred on each run from must-locksets (intersection over paths and over call sites of unexported helpers); " +
+			"mutex around every use, or holds - at every access, exclusively at every write - one and the same mutex field of one other type (an element of a container protected by the container's mutex; that an instance is reached under one such mutex only is assumed and said so in the evidence). append(field, ...) counts as a write to what the field refers to; writes made by a functional option (a literal only returned as a named function type and only ever applied to an object its caller has just built) are construction-time. Guarded-by relations are inferred on each run from must-locksets (intersection over paths and over call sites of unexported helpers); " +
 			"no field table is frozen. Package-level variables are written only during package initialisation. Copied structs, user callbacks and third-party types used " +
 			"outside our locks are assumptions, listed in the evidence.",
 	})
